@@ -93,24 +93,41 @@ def gen_case(seed):
             noise.append({'name': 'p%d' % i, 'vars': ['a0'], 'fvars': [], 'path': ['p%d' % i],
                           'ts': {'mode': 'const', 'vals': [r.rint(1, 12)], 'unit': UNIT},
                           'cond': {'mode': 'none'}, 'writes': [['a0', [r.rint(1, 99)]]], 'noemit': []})
+    # the variables of port env one level further down: ('env', 'sub', var)
+    # (own stream: the cases of earlier seeds keep their shape)
+    deep = Rng(derive(seed, 'deep')).chance(30)
     return {
         'profile': PROFILE, 'seed': seed,
-        'opts': {'unit': UNIT, 'precision': None, 't0': 0, 'helper': swarm['helper']},
+        'opts': {'unit': UNIT, 'precision': None, 't0': 0, 'helper': swarm['helper'], 'deep_env': deep},
         'timeline': events, 'ts_units': ts_units, 'ports': ports, 'noise': noise, 'ops': ops,
         'swarm': sorted(k for k, v in swarm.items() if v),
     }
 
 
+def _path(key, deep):
+    p, v = key.split('.')
+    return (p, 'sub', v) if (deep and p == 'env') else (p, v)
+
+
+def _vars(d, port, deep):
+    """The variables of a port in a state / update dictionary."""
+    sub = (d or {}).get(port) or {}
+    if deep and port == 'env':
+        sub = sub.get('sub') or {} if isinstance(sub, dict) else {}
+    return sub
+
+
 def build(case):
     from dst.parties import TLProcClass, Holder, KProc, decode_value
     processes, topology = {}, {}
-    timeline = [(t, {tuple(k.split('.')): copy.deepcopy(v) for k, v in ch.items()})
+    deep = bool(case['opts'].get('deep_env'))
+    timeline = [(t, {_path(k, deep): copy.deepcopy(v) for k, v in ch.items()})
                 for t, ch in case['timeline']]
     params = {'time_step': tval(case['ts_units'], UNIT), 'timeline': timeline}
     tl = TLProcClass()(params)
     processes['timeline'] = tl
     topology['timeline'] = {port: (port,) for port in tl.ports()}
-    holder = Holder({'spec': {'name': 'holder', 'ports': case['ports'],
+    holder = Holder({'spec': {'name': 'holder', 'ports': case['ports'], 'deep_env': deep,
                               'ts': {'mode': 'const', 'vals': [64], 'unit': UNIT}}, 'name': 'holder'})
     processes['holder'] = holder
     topology['holder'] = dict({p: (p,) for p in case['ports']}, probe=('verif_probe',))
@@ -158,6 +175,9 @@ def validate(case):
 def check(case, run, stats=None):
     stats = stats if stats is not None else {}
     probes = stats.setdefault('probes', {})
+    deep = bool(case['opts'].get('deep_env'))
+    if deep:
+        probes['nested-event-paths'] = 1
     if run.budget_hit:
         return [V('C03', 'C03.no-termination', 'timeline', 'budget exceeded')]
     if run.exc is not None:
@@ -199,10 +219,10 @@ def check(case, run, stats=None):
                 probes['event-fired'] = probes.get('event-fired', 0) + len(due)
             up = ev['update']
             got = {}
-            for port, sub in up.items():
+            for port in up:
                 if port == 'global':
                     continue
-                for var, spec in (sub or {}).items():
+                for var, spec in _vars(up, port, deep).items():
                     got[port + '.' + var] = spec
             if (up.get('global') or {}).get('time') != ev['ts']:
                 return [V('C19', 'C19.clock', 'plain',
@@ -238,7 +258,7 @@ def check(case, run, stats=None):
             state_now = {}
             for p, vars_ in case['ports'].items():
                 for v in vars_:
-                    state_now[p + '.' + v] = ((snap.get(p) or {}).get(v))
+                    state_now[p + '.' + v] = _vars(snap, p, deep).get(v)
             # every variable holds the default or the value of an event that has been handed out
             for kk, val in state_now.items():
                 allowed = [expected_state[kk]]
@@ -268,14 +288,14 @@ def check(case, run, stats=None):
             if ev['k'] == 'NU' and ev['uid'].startswith('timeline'):
                 clock = ((ev.get('view') or {}).get('global') or {}).get('time')
                 if clock + ev['ts'] <= clock_final:
-                    for port, sub in ev['update'].items():
+                    for port in ev['update']:
                         if port == 'global':
                             continue
-                        for var, spec in (sub or {}).items():
+                        for var, spec in _vars(ev['update'], port, deep).items():
                             applied_vals[port + '.' + var] = spec.get('_value') if isinstance(spec, dict) else spec
         for kk, val in applied_vals.items():
             p, v = kk.split('.')
-            now = (snap.get(p) or {}).get(v)
+            now = _vars(snap, p, deep).get(v)
             if not (values_equal(now, val) and type(now) == type(val)):
                 # a later event may have overwritten it: accept any later fired value
                 later_ok = any(values_equal(now, ch[kk]) for t, ch in events if t in fired and kk in ch)
